@@ -30,7 +30,7 @@ PENDING = 'old({0}.send_buffer)[:old({0}.send_idx)]'.format(FS)
 contract('AdbDevice._filesync_flush',
          real=dev('_filesync_flush'),
          params={'self': 'obj:AdbDevice', 'adb_info': 'obj:AdbInfo', 'filesync_info': 'obj:FSInfo'},
-         props=['C04', 'C07', 'C10', 'C12', 'C08'],
+         props=['C04', 'C07', 'C10', 'C12', 'C08', 'C09'],
          requires=STREAM_OK + FS_INV + [RINV, NOLOCK],
          modifies=IO_MOD + RD_MOD + [FS + '.send_idx', FS + '.recv_buffer', 'G.sync_flushed'],
          ghost_exit=[('G.sync_flushed', 'store(G.sync_flushed, {0}, G.sync_flushed[{0}] + old({1}.send_buffer)[:old({1}.send_idx)])'.format(LID, FS))],
@@ -39,18 +39,18 @@ contract('AdbDevice._filesync_flush',
                    'G.peer_rx == old(G.peer_rx) + frame(WRTE, adb_info.local_id, adb_info.remote_id, {0}) + rep({1}, {2} - 1)'.format(PENDING, OKAYF, K)),
                   ('C07', 'payload-within-maxdata', 'old({0}.send_idx) <= {0}._maxdata'.format(FS)),
                   ('C04', 'stop-and-wait-OKAY-received-before-returning', 'D_cmd({0}, G.di[{0}] - 1) == OKAY and {1} >= 1'.format(LID, K)),
-                  ('C10,C08', 'data-written-by-the-device-meanwhile-is-kept', RINV + ' and G.spos == old(G.spos)'),
-                  ('C04,C08', 'only-this-stream-advances', ONLY_OUR_STREAM + ' and ' + ONLY_OUR_SGOT),
+                  ('C10,C08,C09', 'data-written-by-the-device-meanwhile-is-kept', RINV + ' and G.spos == old(G.spos)'),
+                  ('C04,C08,C09', 'only-this-stream-advances', ONLY_OUR_STREAM + ' and ' + ONLY_OUR_SGOT),
                   ('C07', 'buffer-emptied', '{0}.send_idx == 0'.format(FS)),
                   RELEASED, MONO],
          raises=exc_all([RELEASED, MONO]),
          call_asserts={'AdbDevice._read_until': [
-             ('C10', 'no-data-bearing-packet-is-dropped-while-waiting-for-the-OKAY', 'WRTE in _arg_expected_cmds')]},
+             ('C10,C08,C09', 'no-data-bearing-packet-is-dropped-while-waiting-for-the-OKAY', 'WRTE in _arg_expected_cmds')]},
          loops={0: dict(invariant=[
-             ('C04,C07,C10,C08', '{0}.recv_buffer == SB({1}, G.spos[{1}], G.sgot[{1}]) and isbytearray({0}.recv_buffer) and G.spos[{1}] <= G.sgot[{1}]'.format(FS, LID)),
-             ('C04,C07,C10,C08', 'G.spos == old(G.spos) and %s >= 0 and %s and %s' % (K, ONLY_OUR_STREAM, ONLY_OUR_SGOT)),
+             ('C04,C07,C10,C08,C09', '{0}.recv_buffer == SB({1}, G.spos[{1}], G.sgot[{1}]) and isbytearray({0}.recv_buffer) and G.spos[{1}] <= G.sgot[{1}]'.format(FS, LID)),
+             ('C04,C07,C10,C08,C09', 'G.spos == old(G.spos) and %s >= 0 and %s and %s' % (K, ONLY_OUR_STREAM, ONLY_OUR_SGOT)),
              ('C04,C07', 'G.peer_rx == old(G.peer_rx) + frame(WRTE, adb_info.local_id, adb_info.remote_id, {0}) + rep({1}, {2})'.format(PENDING, OKAYF, K)),
-             ('C04,C07,C10,C12', UNLOCKED), ('C04,C07,C10', MONO + ' and G.rpos >= 0'),
+             ('C04,C07,C10,C12,C08,C09', UNLOCKED), ('C04,C07,C10,C08,C09', MONO + ' and G.rpos >= 0'),
              ('C04,C07', '{0}.send_idx == old({0}.send_idx)'.format(FS)),
          ])},
          doc='sends the buffered sync bytes as one WRTE (<= maxdata) and waits for its OKAY, keeping (and acknowledging) what the device writes meanwhile')
